@@ -19,7 +19,10 @@ EXPLANATION = (
     'R5 the read loop is left only at end of stream or towards an error. R4 also requires that in every caller the '
     'limit handed to read_body is not data-dependent on request headers or size hints; R6 the GET-proxy middleware '
     'mutates the request only on the path that also writes the JSON body (no mutation reaches a pass-through call of '
-    "the inner service). NOT decided: hyper's framing; the accepted content-type list itself."
+    "the inner service); R11 in read_body bytes are taken out of the accumulated body (clear / drain / truncate) only on "
+    "paths on which the single-vs-batch decision has been recorded, so the 128-byte sniffing window is a window over "
+    "everything received and does not restart at a chunk boundary; R3 also requires that what is compared is the whole "
+    "content-type value, not a piece cut from it. NOT decided: hyper's framing; the accepted content-type list itself."
 )
 RULE_TEXT = "instances = gate dominance, taint of per-frame bytes into branch conditions, content-type comparison sites, uses of Content-Length, loop exits"
 TRUSTED = ["rustc MIR", "hyper / http-body framing", "http::Method representation (POST is variant 2 of http::method::Inner)"]
@@ -210,6 +213,15 @@ def r3_is_json(ctx):
     if table is not None:
         lits = list(table)
     R.check(all(l is not None and re.fullmatch(r"application/json(-rpc)?(; ?charset=utf-8)?", l) for l in lits), "C19.R3", "literals", "alternatives: %s" % lits, "is_json compares with %s" % lits, "%s:%d" % (b.file, b.lo))
+    # what is compared is the header value itself, not a piece of it (a media-type prefix cut at `;`, a trimmed copy ...):
+    # `application/json; charset=utf-16` is not an accepted spelling although its media type is
+    trs = ctx.tracer(follow_callers=False, follow_fields=False, inline_calls=False, stop_at_call=r".")
+    cut = []
+    for c in cmp_ok:
+        for l in trs.origins(b, c.args[0]):
+            if l.kind == "call" and not re.search(r"HeaderValue::to_str$|Deref.*::deref$|AsRef.*::as_ref$|Borrow.*::borrow$|String::as_str$", l.detail.get("callee") or ""):
+                cut.append((c, short(l.detail.get("callee") or "?")))
+    R.check(not cut, "C19.R3", "whole-value-compared", "each alternative is compared with the whole content-type value", "is_json compares only a derived part of the content-type value (%s): a value with the right media type and any other parameters (`application/json; charset=utf-16`, `application/json;`) is accepted instead of answered 415" % sorted({x for _, x in cut}), where(cut[0][0]) if cut else "%s:%d" % (b.file, b.lo))
     R.check(len(set(lits)) == len(lits), "C19.R3", "no-duplicate-alternative", "no alternative is listed twice", "duplicate alternatives in is_json: %s" % lits, "%s:%d" % (b.file, b.lo))
 
 
@@ -442,7 +454,72 @@ def r10_the_announced_size_is_gated_like_the_read_size(ctx):
     c07.r6_size_gates(ctx)
 
 
-RULES = [r10_the_announced_size_is_gated_like_the_read_size, r9_size_accounting_is_not_on_the_trimmed_buffer, r1_gate, r2_chunk_independence, r3_is_json, r4_content_length_use, r5_loop_exits, r6_proxy_rewrites_only_what_it_proxies, r7_gate_is_the_only_gate, r8_body_reaches_read_body_untouched, rstatus_http_status_table]
+SHRINK_RX = r"Vec::<.*>::(drain|truncate|remove|split_off|retain|clear|swap_remove)$|VecDeque::<.*>::(drain|truncate|pop_front|clear)$|BytesMut::(advance|split_to|truncate|clear)$|Buf::advance$"
+
+
+def r11_accumulator_shrinks_only_after_the_sniff_decided(ctx):
+    """The sniffing window (first 128 bytes of the *accumulated* body) is a window over everything received so far only
+    as long as nothing is taken out of the accumulator while the sniff is still undecided. A shrink of the accumulator
+    (clear / drain / truncate ...) on a path where single-vs-batch has not been settled restarts the window at a chunk
+    boundary: the same bytes are answered Malformed in one split and accepted in another. Rule: every path from the
+    sniff (Iterator::find over the accumulator) to a shrinking call on the accumulator passes through a block that
+    records the decision (assignment of Some(<const>))."""
+    F, R = ctx.F, ctx.R
+    b = F.one(RB)
+    R.fn(b)
+    finds = b.calls_to(r"Iterator::find$")
+    ext = b.calls_to(r"Vec::<.*>::extend_from_slice$")
+    if len(finds) != 1 or not ext:
+        R.anchor_lost("C19.R11", "the single sniff (Iterator::find) and the accumulator append in read_body (found %d / %d)" % (len(finds), len(ext)))
+        return
+    acc = set()
+    for c in ext:
+        q = op_place(c.args[0]) if c.args else None
+        if q is not None:
+            acc |= flow._local_copies_back(b, q["l"], 6)
+    # the decision variable: a local initialised to None and later set to Some(..) (`let mut is_single = None`);
+    # a block recording the decision is one that assigns Some(..) to it (or, failing that, Some(<const>) to any local)
+    decided, decided_const, none_locals = set(), set(), set()
+    live = [(bi, blk) for bi, blk in enumerate(b.blocks) if bi in b.reachable and not blk.get("cleanup")]
+    for bi, blk in live:
+        for st in blk["st"]:
+            if st["s"] == "assign" and st["rv"]["k"] == "agg" and st["rv"].get("variant") == "None" and not st["pl"].get("p") and st["pl"]["l"] != 0:
+                none_locals.add(st["pl"]["l"])
+    moved_into_none_local = set()   # `_tmp = Some(x); is_single = move _tmp`
+    for bi, blk in live:
+        for st in blk["st"]:
+            if st["s"] == "assign" and st["rv"]["k"] == "use" and not st["pl"].get("p") and st["pl"]["l"] in none_locals:
+                q = op_place(st["rv"]["op"])
+                if q is not None and not q.get("p"):
+                    moved_into_none_local.add(q["l"])
+    for bi, blk in live:
+        for st in blk["st"]:
+            if st["s"] == "assign" and st["rv"]["k"] == "agg" and st["rv"].get("variant") == "Some" and not st["pl"].get("p") and st["pl"]["l"] != 0:
+                if st["pl"]["l"] in none_locals or st["pl"]["l"] in moved_into_none_local:
+                    decided.add(bi)
+                ops = st["rv"].get("ops") or st["rv"].get("fields") or []
+                if ops and all(op_const(o) is not None for o in ops):
+                    decided_const.add(bi)
+    decided = decided or decided_const
+    if not decided:
+        R.anchor_lost("C19.R11", "the blocks of read_body that record the single/batch decision (Some(<const>))")
+        return
+    n = 0
+    for c in b.calls_to(SHRINK_RX):
+        if c.bb not in b.reachable or b.blocks[c.bb].get("cleanup"):
+            continue
+        q = op_place(c.args[0]) if c.args else None
+        if q is None or not (flow._local_copies_back(b, q["l"], 6) & acc):
+            continue
+        n += 1
+        ok = flow.all_paths_pass(b, finds[0].bb, decided, targets={c.bb})
+        R.check(ok, "C19.R11", "read_body:shrink-after-decision:%s#%d" % (short(c.name()).split("::")[-1], n), "the accumulator is shrunk only once the sniff has decided single/batch", "read_body takes bytes out of the accumulated body (%s) on a path where the first non-whitespace byte has not been seen yet: the 128-byte sniffing window restarts at a chunk boundary, so the same body is refused (Malformed) in one split and accepted in another" % short(c.name()), where(c))
+    R.extra["C19.R11.shrink_sites"] = n
+    if n == 0:
+        R.check(True, "C19.R11", "read_body:accumulator-never-shrunk", "the accumulator is never shrunk", "", "%s:%d" % (b.file, b.lo))
+
+
+RULES = [r11_accumulator_shrinks_only_after_the_sniff_decided, r10_the_announced_size_is_gated_like_the_read_size, r9_size_accounting_is_not_on_the_trimmed_buffer, r1_gate, r2_chunk_independence, r3_is_json, r4_content_length_use, r5_loop_exits, r6_proxy_rewrites_only_what_it_proxies, r7_gate_is_the_only_gate, r8_body_reaches_read_body_untouched, rstatus_http_status_table]
 
 LEVEL_TEXT = (
     "Structural necessary conditions decided from the type-checked program: the method/content-type gate by dominance on "
